@@ -37,7 +37,7 @@ RepoSpecial(r) == IF r = NoRepo THEN 0 ELSE Special(r[1]) + Special(r[2]) + Spec
 Specials(r) == Special(r.version) + Special(r.root) + RepoSpecial(r.repo) + SumFiles(r.files)
 Within(r) == Specials(r) <= MaxSpecial
 
-Init == rep = [version |-> "plain", root |-> "plain", repo |-> NoRepo, files |-> <<>>]
+Init == rep = [version |-> "plain", root |-> "plain", repo |-> NoRepo, files |-> <<>>, sums |-> "distinct"]
 AddFile(shape, pc, nc, n) ==
   /\ Len(rep.files) < MaxFiles
   /\ \A i \in 1..Len(rep.files) : ~(rep.files[i].shape = shape /\ rep.files[i].pathC = pc)      \* distinct paths
@@ -47,12 +47,16 @@ SetRepo(o, n, b) == /\ rep.repo = NoRepo
                     /\ LET r == [rep EXCEPT !.repo = <<o, n, b>>] IN Within(r) /\ rep' = r
 SetVersion(c) == /\ rep.version = "plain" /\ c # "plain"
                  /\ LET r == [rep EXCEPT !.version = c] IN Within(r) /\ rep' = r
+(* several files carrying one and the same checksum (equal bytes under different names / languages): a checksum *)
+(* does not determine the measurements                                                                        *)
+ShareChecksum == /\ rep.sums = "distinct" /\ Len(rep.files) >= 2 /\ rep' = [rep EXCEPT !.sums = "same"]
 SetRoot(c) == /\ rep.root = "plain" /\ c # "plain"
               /\ LET r == [rep EXCEPT !.root = c] IN Within(r) /\ rep' = r
 Next == \/ \E s \in PathShapes, pc \in Classes, nc \in Classes, n \in 0..MaxMeas : AddFile(s, pc, nc, n)
         \/ \E o \in Classes, n \in Classes, b \in Classes : SetRepo(o, n, b)
         \/ \E c \in Classes \cup {None} : SetVersion(c)
         \/ \E c \in Classes : SetRoot(c)
+        \/ ShareChecksum
 Spec == Init /\ [][Next]_vars
 BudgetRespected == Within(rep)
 
